@@ -71,6 +71,16 @@ impl Engine for C20 {
             _ => Estimate::Abs(r.size_log(1 << 20)),
         };
         let dict_size = *r.pick(&[0usize, 1, 15, 16, 64, 100, 1024, 2047, 2048, 2049, 4096, 65536]);
+        if r.chance(1, 12) {
+            // estimates whose sample (estimate / 256) is a multiple of the 2048-byte segment size plus 0..17 bytes - a last
+            // segment shorter than one k-mer - over a real source of about the sample's length, dictionary of >= 1 segment
+            let sample = r.urange(1, 2) * 2048 + r.urange(0, 17);
+            let est = sample * 256 + r.urange(0, 255);
+            let len = if r.chance(3, 4) { sample + r.urange(0, 3000) } else { r.urange(16, sample) };
+            let content = crate::content::gen_content_len(&mut r, len);
+            let dict_size = *r.pick(&[2047usize, 2048, 2049, 4096, 4100, 65536]);
+            return C20Plan { content, estimate: Estimate::Abs(est), dict_size, rng_seed: r.next_u64(), chunks: crate::driver::gen_chunks(&mut r) };
+        }
         C20Plan { content, estimate, dict_size, rng_seed: r.next_u64(), chunks: crate::driver::gen_chunks(&mut r) }
     }
 
